@@ -46,7 +46,7 @@ def strategy(tier):
         {
             "table": gen.table(1, 12, fields=FIELDS, permute=True, bulk_max=300,
                                id_strategy=st.one_of(st.integers(1, 5000), st.integers(2**24, 2**26))),
-            "wpath": st.sampled_from(["motl_default", "motl_emmotl", "emmotl_class", "load_then_write"]),
+            "wpath": st.sampled_from(["motl_default", "motl_emmotl", "emmotl_class", "load_then_write", "emmotl_class_with_header"]),
             "rpath": st.sampled_from(["load", "emmotl_class"]),
         }
     )
@@ -96,6 +96,20 @@ def run(case):
         ok, _ = call(out, "Motl.write_out", lambda: cryomotl.Motl(df.copy()).write_out(path, "emmotl"))
     elif w == "emmotl_class":
         ok, _ = call(out, "EmMotl.write_out", lambda: cryomotl.EmMotl(df.copy()).write_out(path))
+    elif w == "emmotl_class_with_header":
+        # the list is written with the header object of another EM file (a list with another particle count), as happens
+        # when a subset or a merged list is saved with the source file's header
+        other = np.zeros((n + 3, 20))
+        other[:, 3] = np.arange(1, n + 4)
+        import pandas as _pd
+        ok, _ = call(out, "EmMotl.write_out", lambda: cryomotl.EmMotl(_pd.DataFrame(other, columns=oracle.MOTL_COLUMNS)).write_out("other.em"))
+        if not ok:
+            return out
+        ok, src = call(out, "EmMotl(path)", lambda: cryomotl.EmMotl("other.em"))
+        if not ok:
+            return out
+        hdr = src.header if src.header else {"note": "header of other.em"}
+        ok, _ = call(out, "EmMotl(header).write_out", lambda: cryomotl.EmMotl(df.copy(), header=hdr).write_out(path))
     else:
         ok, _ = call(out, "Motl.load.write_out", lambda: cryomotl.Motl.load(df.copy()).write_out(path))
     if not ok:
